@@ -10,6 +10,7 @@ import VyxalModel.Model.LazyList
 import VyxalModel.Model.Input
 import VyxalModel.Model.Num
 import VyxalModel.Model.NumTheory
+import VyxalModel.Model.Lists
 import VyxalModel.Gen.Codepage
 /-! Line protocol: `cmd<TAB>argument`; one answer line per request. -/
 open Vy
@@ -129,6 +130,31 @@ def ntCmd (arg : String) : String :=
   | ["r0x", n] => showNats (NT.exclusiveZeroRange n.toNat!)
   | _ => "BADARG"
 
+def showInts (l : List Int) : String := "[" ++ ",".intercalate (l.map toString) ++ "]"
+def showIntss (l : List (List Int)) : String := "[" ++ ",".intercalate (l.map showInts) ++ "]"
+
+/-- `ls <fn>|<list>|<second argument>` : the list builtin models -/
+def lsCmd (arg : String) : String :=
+  match arg.splitOn "|" with
+  | [fn, a, b] =>
+    let l := parseInts a
+    (match fn with
+     | "uniquify" => showInts (Ls.uniquify l)
+     | "cumsum" => showInts (Ls.cumulativeSum l)
+     | "deltas" => showInts (Ls.deltas l)
+     | "interleave" => showInts (Ls.interleave l (parseInts b))
+     | "uninterleave" => showIntss [(Ls.uninterleave l).1, (Ls.uninterleave l).2]
+     | "wrap" => showIntss (Ls.wrapK l (b.toNat?.getD 0))
+     | "prefixes" => showIntss (Ls.prefixes l)
+     | "group" => showIntss (Ls.groupConsecutive l)
+     | "counts" => "[" ++ ",".intercalate ((Ls.counts l).map (fun p => s!"[{p.1},{p.2}]")) ++ "]"
+     | "sort" => showInts (Ls.vySort l)
+     | "sum" => toString (Ls.vySum l)
+     | "product" => toString (Ls.vyProduct l)
+     | "reverse" => showInts l.reverse
+     | _ => "BADFN")
+  | _ => "BADARG"
+
 def answer (cmd arg : String) : String :=
   match cmd with
   | "tok" => showToks (tokenise (parseCps arg))
@@ -180,6 +206,7 @@ def answer (cmd arg : String) : String :=
       | some n => toString n
       | none => "ERR")
   | "nt" => ntCmd arg
+  | "ls" => lsCmd arg
   | "arith" => arithCmd arg
   | "ll" => llCmd arg
   | "inp" => inpCmd arg
